@@ -83,6 +83,11 @@ def directed(tier):
                             sends=[dict(side='A', length=40000 if seg == 100 else 12000, at=-1), dict(side='A', length=6, at=-1)] +
                             ([dict(side='B', length=9000, at=4)] if policy == 'burst' else [])))
             idx += 1
+    # the sender's test option that adds a private (critical) transfer extension item: multi-segment bundles are transfers like any other
+    for policy in ('fair', 'eager'):
+        out.append(dict(id='dir-%d' % idx, seed=idx, policy=policy, capacity=None, cfg_a=dict(segment_size_tx_initial=100, enable_test={'private_extensions'}),
+                        cfg_b=dict(segment_size_tx_initial=100), sends=[dict(side='A', length=250, at=-1), dict(side='A', length=7, at=-1), dict(side='B', length=120, at=3)]))
+        idx += 1
     # one octet at a time
     for seg in (1, 7, 100):
         out.append(dict(id='dir-%d' % idx, seed=idx, policy='octet', capacity=None, cfg_a=dict(segment_size_tx_initial=seg),
